@@ -4,33 +4,39 @@ import OntVerif.Model.Codec
 
 Executable, core-only.  `ReadMessage` (header checks + payload read + checksum + dispatch) and the per-type
 `Deserialization`/`Serialization` methods, written on top of the `ZeroCopySource` readers of `Model/Codec.lean`.
+The model mirrors the tree as it is (including the repaired `Addr.Deserialization`, fix f30d0344: the old panic
+witnesses stay in `corpus/C24/addr-count.ops`).
 
 * A decoder is a `Dec α := St → Res (α × St)`; `Res.panic` is a Go run-time panic (a slice expression out of
-  range), `Res.err` an error return, `Res.ok` a normal return.  The totality theorems of `Props/C24.lean` show
-  `panic` is unreachable for every payload (for the repaired `Addr` decoder; the as-shipped one has a witness).
-* `St.lossy` is a *ghost* bit, never read by any decoder: it is set exactly where the Go code throws information
-  away that the encoder cannot reproduce (an ignored `irregular` flag, a list cut to its cap, the `SoftVersion`
-  fallback).  "Canonical payload" = decoding ends with `lossy = false` and the cursor at the end of the payload.
-* The checksum `H : Bytes → Bytes` (first 4 bytes of SHA-256d) is an abstract parameter.
+  range), `Res.err e s` an error return (with the state reached, for the allocation accounting), `Res.ok` a normal return.
+* Ghost fields of `St`, never read by any decoder:
+  - `lossy` is set exactly where the Go code throws information away that the encoder cannot reproduce (an ignored
+    `irregular` flag, a list cut to its cap, the `SoftVersion` fallback).  "Canonical payload" = decoding ends with
+    `lossy = false` and the cursor at the end of the payload.
+  - `allocs` counts allocation events: `allocEv n` mirrors a Go `make(…, n)` / one `append` of a decoded element
+    (`allocEv 1` in every count-loop iteration).  The decoders of this package contain no `make` sized by a decoded count
+    (pinned by the generated facts `Gen/P2PAlloc.lean`); the two `make` calls of `ReadMessage` are `ReadOk.alloc`.
+* The checksum `H : Bytes → Bytes` (first 4 bytes of SHA-256d) is an abstract parameter.  So are the calls out of this
+  package made by some decoders, collected in `Oracle`: public-key parsing (`keypair.DeserializePublicKey` followed by
+  `SerializePublicKey`), the kad-id difficulty test, `signature.Verify`, the wall-clock test of `getmembers`, and the
+  embedded `core/types.Header` decoder (consumed length + re-serialization).  The Go side supplies their values per case.
 * `int(count)` is the 64-bit conversion (GOARCH=amd64/arm64): a uint64 ≥ 2^63 becomes negative, a uint32 keeps its value.
-* Decoders that call into `core/types` or the crypto library (block, tx, consensus, headers with count>0, updatekadid,
-  getmembers with Timestamp≠0, offline) are *not* modelled: the model returns `Msg.opaque` and the harness only explores them.
+* Not modelled (`Msg.opaque`, explored by the harness only): `block`, `tx` (embedded `core/types` Block/Transaction
+  decoders: C19/C20) and `offline` (hex public keys + a set of signatures; covered by the `O` lines of the harness).
 -/
 namespace OntVerif.Model.P2PMsg
 open OntVerif.Util OntVerif.Model.Codec
 
-inductive Variant | asShipped | sound
-  deriving DecidableEq, Repr
-
-inductive DErr | eof | ueof | irregular | magic | toolong | checksum
-  deriving DecidableEq, Repr
-
-inductive Res (α : Type) | panic | err (e : DErr) | ok (a : α)
+inductive DErr | eof | ueof | irregular | magic | toolong | checksum | other
   deriving DecidableEq, Repr
 
 structure St where
   src : Src
   lossy : Bool
+  allocs : Nat
+  deriving DecidableEq, Repr
+
+inductive Res (α : Type) | panic | err (e : DErr) (s : St) | ok (a : α)
   deriving DecidableEq, Repr
 
 def Dec (α : Type) := St → Res (α × St)
@@ -40,14 +46,16 @@ def pure (a : α) : Dec α := fun s => .ok (a, s)
 def bind (d : Dec α) (f : α → Dec β) : Dec β := fun s =>
   match d s with
   | .panic => .panic
-  | .err e => .err e
+  | .err e s' => .err e s'
   | .ok (a, s') => f a s'
 instance : Monad Dec := { pure := Dec.pure, bind := Dec.bind }
 end Dec
 
-def fail (e : DErr) : Dec α := fun _ => .err e
+def fail (e : DErr) : Dec α := fun s => .err e s
 /-- ghost: remember that information was dropped -/
 def note (b : Bool) : Dec Unit := fun s => .ok ((), { s with lossy := s.lossy || b })
+/-- ghost: an allocation of `n` elements (`make(…, n)`, or one `append` for `n = 1`) -/
+def allocEv (n : Nat) : Dec Unit := fun s => .ok ((), { s with allocs := s.allocs + n })
 
 def liftO (f : Src → Option (α × Src)) : Dec α := fun s =>
   match f s.src with
@@ -91,6 +99,7 @@ def repeatD : Nat → Dec α → Dec (List α)
   | 0, _ => pure []
   | n+1, body => do
     let x ← body
+    allocEv 1
     let xs ← repeatD n body
     pure (x :: xs)
 
@@ -142,8 +151,10 @@ inductive Msg
   | findNodeResp (id : Bytes) (succ : Bool) (addr : Bytes) (closer : List (Bytes × Bytes))
   | version (p : VersionP)
   | members (l : List (Bytes × Bytes))
-  | membersReqSeed (frm to : Bytes)
-  | headersEmpty
+  | membersReq (frm to : Bytes) (ts : Nat) (pk sig : Bytes)   -- pk = canonical key bytes; ts = 0: request from a seed, no key
+  | headers (hs : List Bytes)                                   -- each header as its re-serialization
+  | consensus (ver : Nat) (prev : Bytes) (height bk ts : Nat) (data owner sig : Bytes)
+  | updateKadId (pk : Bytes)
   | unknown (cmd : Bytes) (payload : Bytes)
   | opaque (cmd : Bytes)
   deriving DecidableEq, Repr
@@ -178,7 +189,8 @@ def Msg.cmd : Msg → Bytes
   | .ping _ => cPing | .pong _ => cPong | .verack _ => cVerack | .addrReq => cGetAddr | .addr _ => cAddr
   | .headersReq .. => cGetHeaders | .blocksReq .. => cGetBlocks | .inv .. => cInv | .dataReq .. => cGetData
   | .notFound _ => cNotFound | .findNode _ => cFindNode | .findNodeResp .. => cFindNodeAck | .version _ => cVersion
-  | .members _ => cMembers | .membersReqSeed .. => cGetMembers | .headersEmpty => cHeaders
+  | .members _ => cMembers | .membersReq .. => cGetMembers | .headers _ => cHeaders
+  | .consensus .. => cConsensus | .updateKadId _ => cUpdateKadId
   | .unknown c _ => c | .opaque c => c
 
 /-! ## Encoders (`Serialization`) -/
@@ -224,11 +236,34 @@ def encode : Msg → Bytes
       id ++ writeBool succ ++ writeVarBytes addr ++ leN 4 closer.length ++ (closer.map encPair).flatten
   | .version p => encVersion p
   | .members l => leN 4 l.length ++ (l.map encStrPair).flatten
-  | .membersReqSeed f t => f ++ t ++ leN 4 0
-  | .headersEmpty => leN 4 0
+  | .membersReq f t ts pk sig => f ++ t ++ leN 4 ts ++ (if ts != 0 then writeVarBytes pk ++ writeVarBytes sig else [])
+  | .headers hs => leN 4 hs.length ++ hs.flatten
+  | .consensus ver prev height bk ts data owner sig =>
+      leN 4 ver ++ prev ++ leN 4 height ++ leN 2 bk ++ leN 4 ts ++ writeVarBytes data ++ writeVarBytes owner ++ writeVarBytes sig
+  | .updateKadId pk => writeVarBytes pk
   | .unknown _ p => p
   | .opaque _ => []
 
+
+/-! ## Calls out of the package (abstract) -/
+
+/-- smallest serialized `core/types.Header` (no bookkeepers, no signatures, empty consensus payload) -/
+def HDR_MIN : Nat := 139
+
+structure Oracle where
+  /-- `keypair.DeserializePublicKey(b)` followed by `keypair.SerializePublicKey`: `none` = parse error -/
+  pk : Bytes → Option Bytes
+  /-- `validatePublicKey` (kad-id difficulty), on the canonical key bytes -/
+  kadOk : Bytes → Bool
+  /-- `signature.Verify(key, data, sig) == nil` -/
+  sigOk : Bytes → Bytes → Bytes → Bool
+  /-- `uint32(time.Now().Add(-time.Hour).Unix()) > ts` -/
+  expired : Nat → Bool
+  /-- `core/types.Header.Deserialization` on the unread bytes: (bytes consumed, re-serialization); `none` = error -/
+  hdr : Bytes → Option (Nat × Bytes)
+
+/-- what the model assumes about the embedded header decoder: it consumes what it reports, at least a minimal header -/
+def Oracle.wf (O : Oracle) : Prop := ∀ b n re, O.hdr b = some (n, re) → HDR_MIN ≤ n ∧ n ≤ b.length
 
 /-! ## Well-formed messages (field ranges of the Go types; what `Serialization` can emit and `Deserialization` returns) -/
 
@@ -240,7 +275,7 @@ def VersionP.wf (p : VersionP) : Prop :=
   p.version < 2 ^ 32 ∧ p.services < 2 ^ 64 ∧ p.timestamp < 2 ^ 64 ∧ p.syncPort < 2 ^ 16 ∧ p.httpInfoPort < 2 ^ 16 ∧
   p.consPort < 2 ^ 16 ∧ p.cap.length = 32 ∧ p.nonce < 2 ^ 64 ∧ p.startHeight < 2 ^ 64 ∧ p.relay < 2 ^ 8
 
-def Msg.wf : Msg → Prop
+def Msg.wf (O : Oracle) : Msg → Prop
   | .ping h => h < 2 ^ 64
   | .pong h => h < 2 ^ 64
   | .verack _ => True
@@ -255,8 +290,12 @@ def Msg.wf : Msg → Prop
   | .findNodeResp id _ _ closer => id.length = 20 ∧ closer.length < 2 ^ 32 ∧ ∀ p ∈ closer, p.1.length = 20
   | .version p => p.wf
   | .members l => l.length < 2 ^ 32
-  | .membersReqSeed f t => f.length = 20 ∧ t.length = 20
-  | .headersEmpty => True
+  | .membersReq f t ts pk sig => f.length = 20 ∧ t.length = 20 ∧ ts < 2 ^ 32 ∧ (ts = 0 → pk = [] ∧ sig = []) ∧
+      (ts ≠ 0 → O.pk pk = some pk ∧ O.expired ts = false ∧ O.sigOk pk (f ++ t ++ leN 4 ts) sig = true)
+  | .headers hs => hs.length < 2 ^ 32 ∧ ∀ h ∈ hs, ∀ rest, O.hdr (h ++ rest) = some (h.length, h)
+  | .consensus ver prev height bk ts _ owner _ =>
+      ver < 2 ^ 32 ∧ prev.length = 32 ∧ height < 2 ^ 32 ∧ bk < 2 ^ 16 ∧ ts < 2 ^ 32 ∧ O.pk owner = some owner
+  | .updateKadId pk => O.pk pk = some pk ∧ O.kadOk pk = true
   | .unknown c _ => c ∉ knownCmds ∧ c.length ≤ 12 ∧ c.getLast? ≠ some 0   -- what survives `TrimRight` of the 12-byte field
   | .opaque _ => False
 
@@ -286,13 +325,12 @@ def decPeerAddr : Dec PeerAddr := do
   let id ← uN 8
   pure ⟨time, services, padTo 16 ip.1, port, cport, pseudoPeerId id⟩
 
-/-- `Addr.Deserialization`.  `.asShipped`: the tree as it is; `.sound` = with `fixes/C24-addr-count.patch`:
-`if count > source.Len() { return io.ErrUnexpectedEOF }` before the loop (an entry takes 44 bytes, so such a count can
-never be satisfied; in particular `int(count)` is then non-negative). -/
-def decAddr (v : Variant) : Dec Msg := do
+/-- `Addr.Deserialization` (with the bound check of fix f30d0344: an entry takes 44 bytes, so a count above the unread
+length can never be satisfied; in particular `int(count)` is then non-negative) -/
+def decAddr : Dec Msg := do
   let count ← uN 8
   let rem ← remaining
-  if v == .sound && count > rem then fail .ueof else do
+  if count > rem then fail .ueof else do
     let l ← repeatD (loopBound64 count) decPeerAddr
     note (decide (count > MAX_ADDR_NODE_CNT))
     let l' ← sliceTo l (if count > MAX_ADDR_NODE_CNT then MAX_ADDR_NODE_CNT else count)
@@ -370,15 +408,75 @@ def decMembers : Dec Msg := do
   let l ← repeatD n decMember
   pure (.members l)
 
-def decMembersReq : Dec Msg := do
+/-- `data, _, irregular, eof := source.NextVarBytes(); if eof {…}; if irregular {…}` -/
+def varBytesEofFirst : Dec Bytes := do
+  let r ← nVarBytes
+  if r.2.2.2 then fail .ueof else if r.2.2.1 then fail .irregular else pure r.1
+
+/-- `SubnetMembersRequest.Deserialization` -/
+def decMembersReq (O : Oracle) : Dec Msg := do
   let f ← fixed 20
   let t ← fixed 20
   let ts ← uN 4
-  if ts != 0 then pure (.opaque cGetMembers) else pure (.membersReqSeed f t)
+  if ts != 0 then do
+    let pkb ← readVarBytes
+    match O.pk pkb with
+    | none => fail .other
+    | some canon => do
+      let sg ← readVarBytes
+      if O.expired ts then fail .other
+      else if !O.sigOk canon (f ++ t ++ leN 4 ts) sg then fail .other
+      else do
+        note (canon != pkb)
+        pure (.membersReq f t ts canon sg)
+  else pure (.membersReq f t 0 [] [])
 
-def decHeaders : Dec Msg := do
-  let n ← uN 4
-  if n != 0 then pure (.opaque cHeaders) else pure .headersEmpty
+/-- the unread bytes (what an embedded decoder gets to see) -/
+def peekRest : Dec Bytes := fun s => .ok (s.src.bs.drop s.src.off, s)
+
+/-- one `headers.Deserialization(source)` of `core/types.Header` (abstract), mirrored as "skip the bytes it consumed" -/
+def decHeader (O : Oracle) : Dec Bytes := do
+  let rest ← peekRest
+  match O.hdr rest with
+  | none => fail .other
+  | some (n, re) =>
+    if n > rest.length then fail .other else do   -- unreachable for a well-behaved oracle (`Oracle.wf`)
+      let r ← nBytes n
+      if r.2 then fail .other else do
+        note (re != r.1)
+        pure re
+
+/-- `BlkHeader.Deserialization` -/
+def decHeaders (O : Oracle) : Dec Msg := do
+  let count ← uN 4
+  let hs ← repeatD count (decHeader O)
+  pure (.headers hs)
+
+/-- `ConsensusPayload.Deserialization` -/
+def decConsensus (O : Oracle) : Dec Msg := do
+  let ver ← uN 4
+  let prev ← fixed 32
+  let height ← uN 4
+  let bk ← uN 2
+  let ts ← uN 4
+  let data ← varBytesEofFirst
+  let pkb ← varBytesEofFirst
+  match O.pk pkb with
+  | none => fail .other
+  | some canon => do
+    let sg ← readVarBytes            -- here `irregular` is tested before `eof`
+    note (canon != pkb)
+    pure (.consensus ver prev height bk ts data canon sg)
+
+/-- `UpdatePeerKeyId.Deserialization` (`PeerKeyId.Deserialization`) -/
+def decUpdateKadId (O : Oracle) : Dec Msg := do
+  let pkb ← readVarBytes
+  match O.pk pkb with
+  | none => fail .other
+  | some canon =>
+    if !O.kadOk canon then fail .other else do
+      note (canon != pkb)
+      pure (.updateKadId canon)
 
 def decUnknown (cmd : Bytes) : Dec Msg := do
   let n ← remaining
@@ -386,34 +484,34 @@ def decUnknown (cmd : Bytes) : Dec Msg := do
   pure (.unknown cmd r.1)
 
 /-- `makeEmptyMessage(cmdType)` followed by `msg.Deserialization(source)` -/
-def decodePayload (v : Variant) (cmd : Bytes) : Dec Msg :=
+def decodePayload (O : Oracle) (cmd : Bytes) : Dec Msg :=
   if cmd = cPing then decPing
   else if cmd = cVersion then decVersion
   else if cmd = cVerack then decVerack
-  else if cmd = cAddr then decAddr v
+  else if cmd = cAddr then decAddr
   else if cmd = cGetAddr then decAddrReq
   else if cmd = cPong then decPong
   else if cmd = cGetHeaders then decHeadersReq
-  else if cmd = cHeaders then decHeaders
+  else if cmd = cHeaders then decHeaders O
   else if cmd = cInv then decInv
   else if cmd = cGetData then decDataReq
   else if cmd = cBlock then pure (.opaque cmd)
   else if cmd = cTx then pure (.opaque cmd)
-  else if cmd = cConsensus then pure (.opaque cmd)
+  else if cmd = cConsensus then decConsensus O
   else if cmd = cNotFound then decNotFound
   else if cmd = cGetBlocks then decBlocksReq
   else if cmd = cFindNode then decFindNode
   else if cmd = cFindNodeAck then decFindNodeResp
-  else if cmd = cUpdateKadId then pure (.opaque cmd)
-  else if cmd = cGetMembers then decMembersReq
+  else if cmd = cUpdateKadId then decUpdateKadId O
+  else if cmd = cGetMembers then decMembersReq O
   else if cmd = cMembers then decMembers
   else if cmd = cOffline then pure (.opaque cmd)
   else decUnknown cmd
 
-def St.init (p : Bytes) : St := ⟨⟨p, 0⟩, false⟩
+def St.init (p : Bytes) : St := ⟨⟨p, 0⟩, false, 0⟩
 
 /-- decode a whole payload; canonical = no ghost loss and everything consumed -/
-def decodeAll (v : Variant) (cmd p : Bytes) : Res (Msg × St) := decodePayload v cmd (St.init p)
+def decodeAll (O : Oracle) (cmd p : Bytes) : Res (Msg × St) := decodePayload O cmd (St.init p)
 
 def canonicalEnd (p : Bytes) (st : St) : Bool := !st.lossy && st.src.off == p.length
 
@@ -452,14 +550,18 @@ structure ReadOk where
   fin : St           -- ghost: final decoder state (cursor, lossy)
   deriving DecidableEq, Repr
 
+/-- result of `ReadMessage` -/
+inductive RRes | panic | err (e : DErr) | ok (r : ReadOk)
+  deriving DecidableEq, Repr
+
 /-- `types.ReadMessage(reader)`; `magic` = `config.DefConfig.P2PNode.NetworkMagic`, `H` = `common.Checksum` -/
-def readMessage (v : Variant) (magic : Nat) (H : Bytes → Bytes) (stream : Bytes) : Res ReadOk :=
+def readMessage (O : Oracle) (magic : Nat) (H : Bytes → Bytes) (stream : Bytes) : RRes :=
   match readFull stream 24 with
   | .error e => .err e
   | .ok (hb, rest) =>
     match parseHeader (St.init hb) with
     | .panic => .panic
-    | .err e => .err e
+    | .err e _ => .err e
     | .ok (hdr, _) =>
       if hdr.magic ≠ magic then .err .magic
       else if hdr.length > MAX_PAYLOAD_LEN then .err .toolong
@@ -469,9 +571,9 @@ def readMessage (v : Variant) (magic : Nat) (H : Bytes → Bytes) (stream : Byte
         | .ok (buf, rest') =>
           if H buf ≠ hdr.checksum then .err .checksum
           else
-            match decodePayload v (trimRight0 hdr.cmd) (St.init buf) with
+            match decodePayload O (trimRight0 hdr.cmd) (St.init buf) with
             | .panic => .panic
-            | .err e => .err e
+            | .err e _ => .err e
             | .ok (m, st) => .ok ⟨m, hdr.length, rest', hdr.length, st⟩
 
 /-- `newMessageHeader` + `writeMessageHeaderInto` + payload (`WriteMessage`) -/
@@ -480,17 +582,17 @@ def writeMessage (magic : Nat) (H : Bytes → Bytes) (m : Msg) : Bytes :=
   leN 4 magic ++ padTo 12 m.cmd ++ leN 4 p.length ++ padTo 4 (H p) ++ p
 
 /-- a message `WriteMessage` can frame so that `ReadMessage` accepts it -/
-def Framable (H : Bytes → Bytes) (magic : Nat) (m : Msg) : Prop :=
-  m.wf ∧ magic < 2 ^ 32 ∧ (encode m).length ≤ MAX_PAYLOAD_LEN ∧ (∀ b, (H b).length = 4)
+def Framable (O : Oracle) (H : Bytes → Bytes) (magic : Nat) (m : Msg) : Prop :=
+  m.wf O ∧ magic < 2 ^ 32 ∧ (encode m).length ≤ MAX_PAYLOAD_LEN ∧ (∀ b, (H b).length = 4)
 
 /-- the receive loop of `link.Rx`: read messages until the first error; number of messages delivered, or `none` on panic.
 `fuel` only bounds the recursion of the model (each message consumes ≥ 24 bytes, see `Props/C24`). -/
-def rxLoop (v : Variant) (magic : Nat) (H : Bytes → Bytes) : Nat → Bytes → Option Nat
+def rxLoop (O : Oracle) (magic : Nat) (H : Bytes → Bytes) : Nat → Bytes → Option Nat
   | 0, _ => some 0
   | fuel+1, stream =>
-    match readMessage v magic H stream with
+    match readMessage O magic H stream with
     | .panic => none
     | .err _ => some 0
-    | .ok r => (rxLoop v magic H fuel r.rest).map (· + 1)
+    | .ok r => (rxLoop O magic H fuel r.rest).map (· + 1)
 
 end OntVerif.Model.P2PMsg
